@@ -26,13 +26,16 @@
       - Bind names a node, and no UpdateAttr store call of Bind fails AFTER its AssignIP succeeded
         ([f_update = None]: outside the property's fault quantifier - provider calls failing cleanly);
       - a reload / restart keeps every IP configured that the provider has On a node ([keeps_assigned]);
-      - [k3_free]: Bind on [node] happens only when no IP of the pod's key is On ANOTHER node;
-      - [k3b_free]: a resync item / API release of [ip] happens only when no OTHER IP of the same key is On
-        a node.
-    The last two exclude exactly the two genuine defects of galaxy-ipam recorded as known findings K3 / K3b
-    (reproduced on the real code); [cloud_wellformed_refuted_rebind] and
-    [cloud_wellformed_refuted_multi_ip_resync] are concrete [wf_hist] histories that take such a step and
-    after which [log_wf] resp. [cloud_alloc] is false. *)
+      - [k3_free]: Bind on [node] happens only when no IP of the pod's key is On ANOTHER node.
+    The last one excludes exactly the genuine defect of galaxy-ipam recorded as known finding K3 (reproduced on the
+    real code, open); [cloud_wellformed_refuted_rebind] is a concrete [wf_hist] history that takes such a step and
+    after which [log_wf] is false.
+    Resync items and API releases carry NO condition: the defect K3b (a resync item / API release of a pod holding
+    several IPs unassigned the item's IP only but cleared the stored node of, and released, every IP of the key) is
+    repaired and the model follows the repaired code.  [cloud_wellformed_refuted_multi_ip_resync_old] and
+    [cloud_wellformed_refuted_nodeless_resync_old] record what the code did BEFORE the repair
+    ([resync_section_old], Proofs/PluginC10P.v): reachable worlds in which the old resync item breaks [cloud_alloc]
+    and the repaired one, with a valid oracle, keeps it. *)
 From Coq Require Import String.
 From stdpp Require Import gmap.
 From Galaxy.Base Require Import Strs.
@@ -66,12 +69,25 @@ Theorem cloud_wellformed_refuted_rebind : ∃ nodes ops, wf_hist (world0 true no
 Proof. exists c10_nodes, h_k3. exact h_k3_refutes. Qed.
 Print Assumptions cloud_wellformed_refuted_rebind.
 
-(** K3b: a deleted pod held two IPs; the resync item of one unassigns that one only and releases both: the
-    other is free while the provider still has it On the node *)
-Theorem cloud_wellformed_refuted_multi_ip_resync : ∃ nodes ops, wf_hist (world0 true nodes) ops ∧
-  ¬ cloud_alloc (prun (world0 true nodes) ops).
-Proof. exists c10_nodes, h_k3b. exact h_k3b_refutes. Qed.
-Print Assumptions cloud_wellformed_refuted_multi_ip_resync.
+(** K3b, before the repair: a deleted pod held two IPs On node1; the OLD resync item of one of them unassigned that one
+    only and released both - the other is free while the provider still has it On the node.  The repaired item (oracle:
+    unassign order, then clearing order) is not stuck and keeps [cloud_alloc] *)
+Theorem cloud_wellformed_refuted_multi_ip_resync_old : ∃ nodes ops ip o ocl_old ocl, wf_hist (world0 true nodes) ops ∧
+  ¬ cloud_alloc (resync_section_old (prun (world0 true nodes) ops) ip o ocl_old no_faults).1 ∧
+  (resync_section (prun (world0 true nodes) ops) ip o ocl no_faults).2 = SOk ∧
+  cloud_alloc (resync_section (prun (world0 true nodes) ops) ip o ocl no_faults).1.
+Proof. exists c10_nodes, h_k3b, c10_ip2, k3b_orc, [c10_ip2; c10_ip3], ocl_k3b. exact h_k3b_old_refutes. Qed.
+Print Assumptions cloud_wellformed_refuted_multi_ip_resync_old.
+
+(** K3b, second form (before the repair): the item's own IP has no node stored (Bind of the next incarnation failed
+    cleanly at the second AssignIP) while another IP of the key is On node1: the OLD item called no provider and
+    released both IPs.  The repaired item unassigns every IP of the key that has a node stored *)
+Theorem cloud_wellformed_refuted_nodeless_resync_old : ∃ nodes ops ip o ocl_old ocl, wf_hist (world0 true nodes) ops ∧
+  ¬ cloud_alloc (resync_section_old (prun (world0 true nodes) ops) ip o ocl_old no_faults).1 ∧
+  (resync_section (prun (world0 true nodes) ops) ip o ocl no_faults).2 = SOk ∧
+  cloud_alloc (resync_section (prun (world0 true nodes) ops) ip o ocl no_faults).1.
+Proof. exists c10_nodes, h_k3b_nodeless, c10_ip3, k3b_orc, [], ocl_k3bn. exact h_k3b_nodeless_old_refutes. Qed.
+Print Assumptions cloud_wellformed_refuted_nodeless_resync_old.
 
 (** the theorems' domain contains histories with a live bound pod *)
 Example c10_nonvacuous : ∃ nodes ops, wf_c10_hist (world0 true nodes) ops ∧
